@@ -21,6 +21,7 @@ assumed("pd.rowwise", "pandas element-wise and row-filter operations act row by 
                       "(a NEW object), dropna() drops rows with a NaN/None cell (not +-inf), np.isfinite is true exactly for ordinary numbers, "
                       ".loc[mask, col] = v writes in place, index.isin(other.index) is membership for unique labels, join is a left join on "
                       "the index, concat(axis=0) stacks rows, sort_index reorders rows only, Series.map(dict) maps values (missing key -> NaN)")
+assumed("pd.fill", "Series.interpolate / ffill / bfill change only missing cells; bfill after ffill leaves no cell missing when the column has at least one present value")
 assumed("pd.resample", "Series.resample(rule).agg() groups by calendar period of the series' own index (its timezone as is) and applies the "
                        "named aggregate to the series' values; recorded structurally as (aggregate, column, frame, rule), not computed")
 
@@ -248,7 +249,10 @@ class RFrame:
         raise Unsupported(f"attribute store DataFrame.{name}", node)
 
     def sym_len(self, interp, node):
-        raise Unsupported("len() of a frame (row-wise model has no row count)", node)
+        # the number of rows is a global quantity: an unknown integer, at least 1 when the arbitrary row is a member
+        n = z3.Int(f"len!{self.uid}")
+        interp.run._add(z3.And(n >= 0, z3.Implies(self.member(), n >= 1)))
+        return n
 
 
 class _MaskFrame:
@@ -375,6 +379,9 @@ class RIndex:
     def __init__(self, frame):
         self.frame = frame
 
+    def sym_len(self, interp, node):
+        return self.frame.sym_len(interp, node)
+
     def sym_getitem(self, interp, key, node):
         if isinstance(key, RMask):
             return RIndex(self.frame.derive(mult=_ite(key.cond, self.frame.mult, 0), note=f"filter[{key.note}]"))
@@ -426,6 +433,27 @@ class RSeries:
                     return RSeries(self.frame, Cell(c.kind, z3.If(c.val, 1, 0)), self.name)
                 return self
             return _Callable(astype)
+        if name in ("interpolate", "ffill", "bfill", "fillna"):
+            def fill(*a, **k):
+                # assumed pandas contract: filling methods change ONLY missing cells; what a missing cell becomes is unknown
+                # (a number or still missing), except that bfill after ffill leaves nothing missing when the column has any
+                # present value
+                use(interp, "pd.fill")
+                run = interp.run
+                was_nan = c.is_nan()
+                k2 = run.fresh_int("filled_kind")
+                v2 = run.fresh_real("filled_val")
+                run._add(z3.Or(k2 == NUM, k2 == NAN))
+                has_any = z3.Bool(f"has_present!{self.frame.uid}!{self.name}")
+                run._add(z3.Implies(z3.And(self.frame.member(), _not(was_nan) if not isinstance(was_nan, bool) else z3.BoolVal(not was_nan)), has_any))
+                if name == "bfill" and getattr(self, "ffilled", False):
+                    run._add(z3.Implies(has_any, k2 == NUM))
+                out = RSeries(self.frame, cell_ite(was_nan, Cell(k2, v2), c), self.name)
+                out.ffilled = name == "ffill" or (getattr(self, "ffilled", False) and name != "ffill")
+                return out
+            return _Callable(fill)
+        if name == "copy":
+            return _Callable(lambda *a, **k: RSeries(self.frame, Cell(c.kind, c.val), self.name))
         if name == "clip":
             def clip(lower=None, upper=None, **k):
                 v = c.val
